@@ -321,3 +321,7 @@ mod tests {
         );
     }
 }
+
+#[cfg(kani)]
+#[path = "/verif/kani/rect.rs"]
+pub(crate) mod verif_kani;
